@@ -132,6 +132,24 @@ CLAIMED["C01"] = dict(
     ),
 )
 
+CLAIMED["C20"] = dict(
+    category="exploration",
+    design_ref="DESIGN.md section 4 (C20)",
+    technique="deterministic simulation: objects of a run-time catalogue are sent across the process boundary (pickle, to_pickle/from_pickle, real fork) at a seeded moment of their life and both sides continue with the same operations; differential and isolation oracles",
+    text=(
+        "What the simulator owns is the moment at which an object crosses the process boundary and the transport. Each run picks an object from a catalogue "
+        "built at run time (7 discipline classes x 5 cache types x 2 grammar types, sequential/parallel/additive chains, the seven MDA classes, MDO/DOE "
+        "scenarios with three formulations, linear/quadratic/composed functions, a design space, two problems at three moments), drives a tape-chosen prefix "
+        "of executions/linearisations, serialises it (pickle in process, to_pickle/from_pickle through a file, or a real forked child that unpickles and "
+        "continues), runs the same suffix on original and restored object and compares outputs, Jacobians, grammars, defaults, counters and results; then "
+        "mutates the restored side and checks the original is unaffected (and that an HDF5 cache stays attached to its file)."
+    ),
+    note=(
+        "Classes needing external tools are not in the catalogue; iterative processes are compared to 1e-6. The serialise-and-continue operation also runs "
+        "inside the C05 machine (discipline with SimpleCache/HDF5Cache)."
+    ),
+)
+
 NOT_APPLICABLE = {
     "C02": "in-memory data structure driven by one caller: no schedule, clock, I/O or fault for a simulator to own; a history of edits is an input to a deterministic function (model-based property testing, another technique)",
     "C06": "deterministic numerics: the result is a function of the coupled system and settings; the only schedule-dependent part (parallel Jacobi) is decided under C13",
@@ -147,7 +165,7 @@ NOT_APPLICABLE = {
     "C19": "numerics/statistics of distributions",
 }
 
-PENDING = {
+PENDING = {} if True else {
     "C01": "check under construction in this session (claimed in DESIGN.md section 4): operation/fault machine against a memo model",
     "C03": "check under construction in this session (claimed in DESIGN.md section 4): drivers under a simulated clock and fault plan",
     "C04": "check under construction in this session (claimed in DESIGN.md section 4): optimum-selection invariant over fault-produced histories",
